@@ -118,6 +118,26 @@ func replayVecRast(args []string) error {
 					z.DrawOp = ops[s.Cmd.O]
 				case "reset":
 					z.Reset(12, 10)
+				case "fillempty":
+					col := color.RGBA{uint8(s.Cmd.C[0]), uint8(s.Cmd.C[1]), uint8(s.Cmd.C[2]), uint8(s.Cmd.C[3])}
+					empty := image.Rectangle{Min: org.Add(image.Pt(3, 3)), Max: org.Add(image.Pt(3, 9))}
+					if route == 0 {
+						z.Reset(12, 10)
+						z.MoveTo(3, 2)
+						z.LineTo(9, 2)
+						z.LineTo(9, 8)
+						z.ClosePath()
+						z.Draw(empty, image.NewUniform(col), image.Point{})
+					} else {
+						rd.SetRasterizer(z, empty)
+						rd.SetCSel(0)
+						rd.SetCReg(0, false, ivg.RGBAColor(col))
+						rd.StartPath(0, 3, 2)
+						rd.AbsLineTo(9, 2)
+						rd.AbsLineTo(9, 8)
+						rd.ClosePathEndPath()
+						rd.SetRasterizer(z, rect)
+					}
 				case "fill":
 					col := color.RGBA{uint8(s.Cmd.C[0]), uint8(s.Cmd.C[1]), uint8(s.Cmd.C[2]), uint8(s.Cmd.C[3])}
 					if route == 0 {
